@@ -1086,6 +1086,11 @@ impl UnifiedCommandExecutor {
             }
             
             SortedSetCommand::ZIncrBy { key, increment, member } => {
+                // refuse an increment whose result is not a number before storing anything, as the ZINCRBY handler does
+                let current = self.storage.zscore(db, &key, &member)?.unwrap_or(0.0);
+                if (current + increment).is_nan() {
+                    return Ok(RespFrame::error("ERR resulting score is not a number (NaN)"));
+                }
                 let new_score = self.storage.zincrby(db, key, member, increment)?;
                 Ok(RespFrame::from_string(new_score.to_string()))
             }
@@ -2554,8 +2559,8 @@ impl CommandParser {
         let mut score_members = Vec::new();
         let mut i = 2;
         while i < frames.len() {
-            let score = Self::extract_string(&frames[i])?.parse::<f64>()
-                .map_err(|_| FerrousError::Command(CommandError::InvalidFloatValue))?;
+            let score = Self::extract_string(&frames[i])?.parse::<f64>().ok().filter(|n| !n.is_nan())
+                .ok_or(FerrousError::Command(CommandError::InvalidFloatValue))?;
             let member = Self::extract_bytes(&frames[i + 1])?;
             score_members.push((score, member));
             i += 2;
